@@ -96,11 +96,17 @@ class Compare(block.CBlock):
         super().__init__(*args, **kwargs)
 
     def calc_output(self) -> bool:
+        value = self._in['_'][0]
         if self._output is block.UNDEF:
+            # the mean may be inexact (e.g. large integers), test the thresholds first
+            if value >= self._high:
+                return True
+            if value < self._low:
+                return False
             thr = (self._low + self._high) / 2
         else:
             thr = self._low if self._output else self._high
-        return self._in['_'][0] >= thr
+        return value >= thr
 
     def start(self) -> None:
         super().start()
